@@ -272,9 +272,18 @@ def build_model(spec):
     planet = Planet(planet_mass=pm, planet_radius=pr)
     star = BlackbodyStar(temperature=st, radius=sr, distance=spec.get('distance', 1.0))
     fill, ratio = spec.get('fill', (['H2', 'He'], 0.17))
-    chem = TaurexChemistry(fill_gases=list(fill), ratio=ratio)
-    for mol, prof in spec.get('gases', []):
-        chem.addGas(gas_profile(mol, prof))
+    if spec.get('chemfile') is not None:
+        # a tabulated composition (one column per gas, one row per layer) that lists only part of the atmosphere: the
+        # columns do not add up to one
+        from taurex.data.profiles.chemistry import ChemistryFile
+        cf = spec['chemfile']
+        fn = os.path.join(fresh_dir('chemfile'), 'mix.txt')
+        np.savetxt(fn, np.tile(np.array(cf['values'], dtype=float), (N, 1)))
+        chem = ChemistryFile(gases=list(cf['gases']), filename=fn)
+    else:
+        chem = TaurexChemistry(fill_gases=list(fill), ratio=ratio)
+        for mol, prof in spec.get('gases', []):
+            chem.addGas(gas_profile(mol, prof))
     kw = dict(planet=planet, star=star, chemistry=chem, nlayers=N, atm_min_pressure=pmin,
               atm_max_pressure=pmax, temperature_profile=temp_profile(spec.get('T', ('iso', 1000.0)), N))
     if spec.get('parray') is not None:
